@@ -71,7 +71,10 @@ def replay(rec, verbose=False, mode=None):
         return bool(hits)
     tname, s, uname, dn, un, vn, rn = rec["case"]
     cfg = dict(CFG[rec["cfg"]])
-    cfg.update(dirs=(dn,), unks=(un,), via=(vn,), res=(rn,), res_with_via=(rn,))
+    if str(rn).startswith("outside-"):
+        cfg.update(dirs=(dn,), unks=(un,), via=(vn,), res=("none",), res_with_via=("none",))
+    else:
+        cfg.update(dirs=(dn,), unks=(un,), via=(vn,), res=(rn,), res_with_via=(rn,))
     ev, nt, viols = trav.evaluate(spec, seq, w, cfg, mode, w_b)
     hits = [fp for fp, case in viols if case == rec["case"]]
     if verbose:
